@@ -3,6 +3,7 @@ use super::StorageSlice;
 use super::write_ahead_log::WriteAheadLog;
 use super::write_ahead_log::WriteAheadLogRecord;
 use crate::DbError;
+use crate::DbErrorType;
 #[cfg(agdb_verif)]
 use super::verif_fs::File;
 #[cfg(agdb_verif)]
@@ -117,6 +118,16 @@ impl StorageData for FileStorage {
     }
 
     fn read(&'_ self, pos: u64, value_len: u64) -> Result<StorageSlice<'_>, DbError> {
+        if pos.saturating_add(value_len) > self.len {
+            return Err(DbError::storage(
+                DbErrorType::OutOfBounds,
+                format!(
+                    "Read of {value_len} bytes at {pos} is out of bounds ({})",
+                    self.len
+                ),
+            ));
+        }
+
         let mut buffer = vec![0_u8; value_len as usize];
 
         #[cfg(agdb_verif)]
